@@ -137,7 +137,7 @@ def ht_putd_units(order, kind, c, tier):
     fx = ["C17.closer.fx.no-candidate-changes-nothing", "C17.closer.fx.gives-up-only-when-no-entry-can-move", "C17.closer.fx.moved-entry-lies-between-its-home-and-the-hole",
           "C17.closer.fx.bitmap-bit-moves-with-the-entry", "C17.closer.fx.hole-receives-the-entry", "C17.closer.fx.nothing-else-changes"]
     unit("ht.closer.fx.%s.o%d" % (kind, order), ["C17"], "units/ht.c", entry="h_ht_closer_fx", tier=tier, solver="cadical", unwind=129, kind="proof",
-         defines=["HT_ORDER=%d" % order, "HT_KIND=%d" % HT_KINDS[kind], "HT_F=5"], shared_tags=True, expect_tags=fx, timeout=900, mem_gb=8,
+         defines=["HT_ORDER=%d" % order, "HT_KIND=%d" % HT_KINDS[kind], "HT_F=5"], shared_tags=True, expect_tags=fx, timeout=900, mem_gb=8, failure_is_infra=True,
          bound="table order %d, free position 5 (rotation symmetry), every table content" % order,
          functions=["find_closer_entry_<name> (order %d, %s keys): exact functional effect" % (order, kind)],
          assumes=["rotation symmetry of the table for the choice of the free position"])
@@ -218,19 +218,20 @@ unit("ext.offer", ["C19", "C06"], "units/ws.c", entry="h_ext_offer", functions=[
 COMP_ASSUME = ["zlib (src/zlib: inflate, deflate, *Init2_, *End) replaced by assumed contracts that check the windows cjet hands over (stubs/zlib_ghost.h)",
                "memcpy/memmove: byte-loop models", "malloc/realloc never fail (the OOM paths are not covered)"]
 def comp_frames_unit(l1, lo, hi, tier):
-    unit("comp.frames.first%d.second%d-%d" % (l1, lo, hi), ["C19", "C06"], "units/u_comp.c", entry="h_comp_frames", kind="bounded", tier=tier,
+    unit("comp.frames.first%d.second%d-%d" % (l1, lo, hi), ["C19", "C06"], "units/u_comp.c", entry="h_comp_frames", kind="bounded", tier=tier, best_effort=(tier == "thorough"),
          bound="2 or 3 fragments of %d, %d..%d and <= 3 bytes (every combination as its own constant-size path), text and binary, <= 3 inflate calls per message, every byte value" % (l1, lo, hi),
          functions=["binary_frame_received_comp", "text_frame_received_comp", "reassemble", "private_decompress", "read_int_from_array", "write_int_to_array"],
-         includes=["{REPO}/src/zlib"], defines=["NO_GZIP", "COMP_L1MIN=%d" % l1, "COMP_L1=%d" % l1, "COMP_L2MIN=%d" % lo, "COMP_L2=%d" % hi], unwind=66, solver="cadical",
-         flags=["--memory-leak-check", "--slice-formula"], timeout=1800, mem_gb=8, mem_budget_gb=3, shared_tags=True, replay={"c": "replay/comp_replay.c", "extract": "comp_extract", "link": ["src/compression.c", "src/zlib/*.c"], "libs": ["-I", "{REPO}/src/zlib"]}, 
+         includes=["{REPO}/src/zlib"], defines=["NO_GZIP", "COMP_L1MIN=%d" % l1, "COMP_L1=%d" % l1, "COMP_L2MIN=%d" % lo, "COMP_L2=%d" % hi] + (["COMP_REALLOC_LOOP_MAX=400"] if hi > 8 else []),
+         unwind=(402 if hi > 8 else 66), solver="cadical",
+         flags=["--memory-leak-check", "--slice-formula"], timeout=1800, mem_gb=12, mem_budget_gb=4, shared_tags=True, replay={"c": "replay/comp_replay.c", "extract": "comp_extract", "link": ["src/compression.c", "src/zlib/*.c"], "libs": ["-I", "{REPO}/src/zlib"]}, 
          expect_tags=["C19.reassemble.buffer-accounting-matches-the-allocation", "C19.reassemble.inflate-gets-the-fragments-concatenated-in-order", "C19.decompress.application-gets-exactly-the-inflated-bytes"],
          assumes=COMP_ASSUME + ["realloc: model that copies byte by byte (small objects) / by array primitive, and requires the caller to double (as compression.c does)"])
 
 
 for _l1 in range(4):
     comp_frames_unit(_l1, 0, 8, "quick")
-    comp_frames_unit(_l1, 9, 17, "thorough")
-    comp_frames_unit(_l1, 18, 26, "thorough")
+    for _lo in range(9, 27, 3):
+        comp_frames_unit(_l1, _lo, _lo + 2, "thorough")
 comp_frames_unit(3, 19, 23, "quick")   # the smallest fragment pair for which ONE doubling of the reassembly buffer is not enough is (3, 20)
 unit("comp.message", ["C19", "C06"], "units/u_comp.c", entry="h_comp_message", kind="bounded", bound="compressed payload of <= 6 bytes, <= 3 inflate calls, every byte value",
      functions=["binary_received_comp", "text_received_comp", "private_decompress"],
@@ -361,6 +362,14 @@ for _sh, _nm in EL_SHAPES:
          expect_tags=["C04.remove.refused-request-changes-nothing"], **EL_COMMON)
 unit("el.setcall", ["C04", "C03", "C08", "C14", "C02", "C06"], "units/u_element.c", entry="h_el_setcall", functions=["set_or_call", "element_is_fetch_only"],
      expect_tags=["C04.setcall.refused-for-unknown-path-fetch-only-wrong-type-or-missing-group-before-anything-is-routed", "C03.route.delivered-once-to-the-owner-only"], **EL_COMMON)
+for _sh, _nm in EL_SHAPES:
+    if _nm in ("p", "pp", "pq"):
+        unit("el.removeall." + _nm, ["C05", "C01", "C04", "C06"], "units/u_element.c", entry="h_el_removeall", functions=["remove_all_elements_from_peer", "remove_element", "free_element"], defines=["EL_SHAPE=%d" % _sh],
+             shared_tags=True, expect_tags=["C05.leave.every-element-of-the-peer-disappears-and-no-other", "C05.leave.subscribers-are-told-remove-once-per-element"], **EL_COMMON)
+unit("el.change.p.allocfail", ["C15", "C04", "C06"], "units/u_element.c", entry="h_el_change", functions=["change_state"], defines=["EL_SHAPE=1", "EL_ALLOC_FAIL=1"], shared_tags=True,
+     expect_tags=["C04.change.refused-request-changes-nothing"], **EL_COMMON)
+unit("el.setcall.allocfail", ["C15", "C07", "C03", "C06"], "units/u_element.c", entry="h_el_setcall", functions=["set_or_call"], defines=["EL_ALLOC_FAIL=1"], shared_tags=True,
+     expect_tags=["C15.route.registered-record-is-not-released-by-the-handler", "C02.handler.at-most-one-response-object-built"], **EL_COMMON)
 
 # ------------------------------------------------------------------------------------------
 # C03 routed requests (router.c)
@@ -371,10 +380,11 @@ RT_COMMON = dict(cfg="rt2", unwind=8, cbmc_unwindset=CJ_UNWIND + ["cj_name_eq_no
                  goto_instrument_args=["--value-set-fi-fp-removal"],
                  assumes=CJ_ASSUME + ["routing table put/get/remove = finite-map contract (C17) with nondeterministic slot placement over router.c's real slot array", "timers, allocator, send_message: recording stubs", "snprintf stub (ids are not formatted in these units)"])
 for _h, _props, _fns, _tags in (
-        ("reply", ["C03", "C07", "C06"], ["handle_routing_response", "format_and_send_response", "create_result_response"], ["C03.reply.caller-gets-exactly-one-answer-with-its-id-and-the-owners-payload", "C03.reply.other-requests-untouched"]),
+        ("reply", ["C03", "C11", "C07", "C06"], ["handle_routing_response", "format_and_send_response", "create_result_response"], ["C03.reply.caller-gets-exactly-one-answer-with-its-id-and-the-owners-payload", "C03.reply.other-requests-untouched"]),
         ("timeout", ["C14", "C03", "C07", "C06"], ["request_timeout_handler", "create_error_response"], ["C14.timeout.caller-gets-exactly-one-timeout-error-with-its-id"]),
         ("ownerdown", ["C03", "C17", "C14", "C05", "C07", "C06"], ["remove_routing_info_from_peer", "clear_routing_entry", "send_shutdown_response"], ["C03.ownerdown.each-caller-with-an-id-gets-exactly-one-shutdown-error", "C03.ownerdown.table-empty-afterwards"]),
         ("bystander", ["C03", "C17", "C14", "C05", "C07", "C06"], ["remove_peer_from_routing_table", "clear_routing_entry"], ["C03.bystander.requests-of-other-callers-are-untouched"]),
+        ("cancel", ["C02", "C03", "C11", "C07", "C06"], ["cancel_routing_request"], ["C02.cancel.request-leaves-the-table-timer-cancelled-and-destroyed-once", "C03.cancel.other-requests-untouched"]),
         ("alloc", ["C03", "C06"], ["alloc_routing_request", "fill_routed_request_id", "calculate_size_for_routed_request_id"], ["C03.alloc.consecutive-requests-get-different-counter-values"]),
         ("setup", ["C03", "C14", "C07", "C06"], ["setup_routing_information"], ["C03.setup.refused-request-is-not-registered", "C14.setup.deadline-is-the-requests-timeout-else-the-elements"])):
     for _sh, _nm in (((1, "c1"), (2, "c1c1"), (2 | 8, "c1c2")) if _h not in ("setup", "alloc") else (((0, "empty"), (1, "c1")) if _h == "setup" else ((0, "empty"),))):
@@ -383,6 +393,15 @@ for _h, _props, _fns, _tags in (
             # the sweeps visit every slot: a 2-slot table keeps them small and still has a "last slot"
             _c = dict(_c, cfg="rt1", bound="routing table of 2 slots (order 1) holding <= 2 in-flight requests from 2 callers")
         unit("rt.%s.%s" % (_h, _nm), _props + ["C02"], "units/u_router.c", entry="h_rt_" + _h, functions=_fns, expect_tags=_tags, shared_tags=True, **_c)
+        if _h == "alloc":
+            unit("rt.alloc.allocfail", ["C15", "C03", "C06"], "units/u_router.c", entry="h_rt_alloc", functions=["alloc_routing_request"], shared_tags=True,
+                 expect_tags=["C15.alloc.record-complete-or-not-returned", "C15.alloc.no-node-left-behind"], **dict(_c, defines=_c["defines"] + ["RT_ALLOC_FAIL=1"]))
+            unit("rt.message.allocfail", ["C15", "C03", "C06"], "units/u_router.c", entry="h_rt_message", functions=["create_routed_message", "add_item_checked"], shared_tags=True,
+                 expect_tags=["C15.message.complete-or-nothing", "C15.message.no-node-left-behind"], **dict(_c, defines=_c["defines"] + ["CJ_DEPTH=2"]))
+        if _h == "reply" and _nm == "c1c2":
+            unit("rt.reply.allocfail", ["C15", "C03", "C06"], "units/u_router.c", entry="h_rt_reply", functions=_fns, shared_tags=True,
+                 expect_tags=["C15.reply.at-most-one-answer-with-its-id-and-the-owners-payload", "C03.reply.no-json-node-left-behind"],
+                 **dict(_c, defines=_c["defines"] + ["RT_ALLOC_FAIL=1"]))
 
 
 # ------------------------------------------------------------------------------------------
@@ -516,7 +535,7 @@ unit("to.value", ["C14", "C06"], "units/u_timer.c", entry="h_to_value", function
      flags=["--conversion-check", "--float-overflow-check"], expect_tags=["C14.value.accepted-timeout-is-the-given-value", "C14.value.timeout-below-one-millisecond-refused"], timeout=300,
      assumes=["IEEE-754 double semantics as modelled by cbmc", "the JSON parser never yields NaN"])
 unit("alloc.acct", ["C07", "C15", "C06"], "units/u_alloc.c", entry="h_alloc_acct", functions=["cjet_malloc", "cjet_calloc", "cjet_free", "cjet_get_alloc_size"], unwind=4, solver="cadical",
-     flags=["--malloc-may-fail", "--malloc-fail-null"], expect_tags=["C07.alloc.accounting-exact", "C07.alloc.cap-respected"], timeout=300,
+     flags=["--malloc-may-fail", "--malloc-fail-null"], expect_tags=["C07.alloc.accounting-exact", "C07.alloc.cap-respected"], timeout=300, shared_tags=True,
      assumes=["request sizes <= 2^32 bytes, nmemb <= 2^16 (derived from the call sites)"])
 
 unit("loop.batch", ["C14", "C09", "C11", "C06"], "units/u_loop.c", entry="h_loop_batch", functions=["handle_events", "eventloop_epoll_remove"], unwind=5, solver="cadical",
@@ -640,11 +659,13 @@ PROPERTY_META["C13"] = {
 PROPERTY_META["C15"] = {
     "level": "proof",
     "level_text": ("Allocation failure, per function and for EVERY subset of failing allocations (a superset of single-fault enumeration): the response builders of response.c leak nothing, never send a response without id / payload and own the "
-                   "result exactly once; the allocator's accounting stays exact when the OS allocation fails; subscription-table growth that fails changes nothing; an authenticate whose user-name copy fails changes nothing."),
-    "level_note": ("Covered functions only (response.c, alloc.c, add_fetch_to_state, handle_authentication). The handlers of element.c / fetch.c / router.c under allocation failure are in the thorough tier or not covered; cJSON's own behaviour "
+                   "result exactly once; the allocator's accounting stays exact when the OS allocation fails; subscription-table growth that fails changes nothing; an authenticate whose user-name copy fails changes nothing; "
+                   "the routed path: create_routed_message builds a complete message or nothing and leaves no node behind, set_or_call never releases a routing request that is already registered (and never leaves an answered one registered), "
+                   "handle_routing_response answers at most once and releases every node once when the copy of the reply, the response object or its rendering fail."),
+    "level_note": ("Covered functions only (response.c, alloc.c, add_fetch_to_state, handle_authentication, create_routed_message, set_or_call, handle_routing_response; add_element_to_peer in the thorough tier). Other handlers of fetch.c / config.c / info.c under allocation failure are not covered; cJSON's own behaviour "
                    "under failure is the executable model's (a failed AddItemToObject does not take ownership). 'Keeps serving afterwards' at daemon level is outside per-function contracts."),
     "explanation": "C15: the harness contracts of the listed units with every allocation (malloc/calloc and every cJSON creator / key copy) allowed to fail independently; cbmc --memory-leak-check and the model's live-node counter as oracles.",
-    "not_decided": ["element/fetch/router handlers under allocation failure (quick tier)", "heap-cap induced failures at daemon level"],
+    "not_decided": ["fetch.c / config.c / info.c handlers under allocation failure", "heap-cap induced failures at daemon level"],
 }
 PROPERTY_META["C19"] = {
     "level": "other",
